@@ -14,13 +14,15 @@ class Peripherals(ModelFeature):
     modes: Union[tuple[Name[Literal['DRUG', 'MET']], ...], Wildcard] = (Name('DRUG'),)
 
     def __add__(self, other):
-        return Peripherals(
-            tuple(set(self.counts + other.counts)), tuple(set(self.modes + other.modes))
-        )
+        if isinstance(self.modes, Wildcard) or isinstance(other.modes, Wildcard):
+            modes = Wildcard()
+        else:
+            modes = tuple(set(self.modes + other.modes))
+        return Peripherals(tuple(set(self.counts + other.counts)), modes)
 
     def __sub__(self, other):
         all_counts = tuple([a for a in self.counts if a not in other.counts])
-        all_modes = tuple([a for a in self.modes if a not in other.modes])
+        all_modes = tuple([a for a in self.eval.modes if a not in other.eval.modes])
 
         if len(all_counts) == 0:
             all_counts = (0,)
@@ -31,7 +33,9 @@ class Peripherals(ModelFeature):
 
     def __eq__(self, other):
         if isinstance(other, Peripherals):
-            return set(self.counts) == set(other.counts) and set(self.modes) == set(other.modes)
+            return set(self.counts) == set(other.counts) and set(self.eval.modes) == set(
+                other.eval.modes
+            )
         else:
             return False
 
